@@ -92,6 +92,7 @@ impl C15 {
             sort_rank: t.permutation(n),
             favored: None,
             locked: None,
+            lock_gone: false,
             hint: if t.chance(1, 3) { Hint::All } else { Hint::None },
             unlisted: vec![],
         });
@@ -103,6 +104,7 @@ impl C15 {
             sort_rank: vec![0],
             favored: None,
             locked: None,
+            lock_gone: false,
             hint: Hint::None,
             unlisted: vec![],
         });
@@ -178,6 +180,7 @@ impl C15 {
                 sort_rank: (0..nc).collect(),
                 favored: None,
                 locked: None,
+                lock_gone: false,
                 hint: Hint::All,
                 unlisted: vec![],
             });
@@ -199,6 +202,7 @@ impl C15 {
                 sort_rank: vec![0],
                 favored: None,
                 locked: None,
+                lock_gone: false,
                 hint: Hint::None,
                 unlisted: vec![],
             });
@@ -274,6 +278,7 @@ impl C15 {
                     sort_rank: vec![0, 1],
                     favored: None,
                     locked: None,
+                    lock_gone: false,
                     hint: Hint::All,
                     unlisted: vec![],
                 });
@@ -295,6 +300,7 @@ impl C15 {
                     sort_rank: vec![0],
                     favored: None,
                     locked: None,
+                    lock_gone: false,
                     hint: Hint::None,
                     unlisted: vec![],
                 });
@@ -723,6 +729,7 @@ impl Property for C15Giant {
             sort_rank: if rev { (0..n).rev().collect() } else { (0..n).collect() },
             favored: None,
             locked: None,
+            lock_gone: false,
             hint: Hint::None,
             unlisted: vec![],
         });
